@@ -4,6 +4,8 @@ import yaml
 import gen_rules, patdiff, impl
 from props.common_pat import run_cases, blob_tagger, finding_reproduces, replay  # noqa: F401
 
+import enginetie
+
 CONSTS = ("IGNORE_INST_ADDR", "SKIP_TO_END_OF_PATTERN_NODE", "SKIP_TO_END_OF_OPERAND", "IGNORE_NAME_PREFIX",
           "IGNORE_NAME_SUFFIX")
 ASSUMPTIONS = ["patterns that can match the empty sequence are excluded (they cover no instruction)",
@@ -61,6 +63,8 @@ def leading_rule(g):
 
 
 def run(ctx, factor):
+    # engine tie T2: the model of the regex engine alone against the real engine (random ASTs of the emitted operator set)
+    enginetie.run(ctx, ctx.budget(500, 20000))
     ctx.report.rule = ("random rules with every operator (and an instruction capture) in leading position, 0-3 operand "
                        "items against instructions with 0-4 operands; both match modes; each reported text must be a run "
                        "of whole records of the stream and each address that of its first record (checked on the "
